@@ -648,6 +648,7 @@ class Emitter:
         self.aggs = {}  # key -> (cname, [field T])
         self.dispatch = {}  # signature key -> (cname, ret T, [param ctype])
         self.dispatch_sites = []
+        self.guards = []
         self.extern_used = {}
         self.str_globals = {}
         self.vtable_slots = {}  # slot -> set(func name)
@@ -854,6 +855,8 @@ class Emitter:
             c = c.v[1]
         if c.k == 'global' and c.v in self.mod.funcs:
             return c.v
+        if c.k == 'global' and c.v in self.mod.aliases:
+            return self.const_fn_name(self.mod.aliases[c.v])
         return None
 
     # ---- C types
@@ -911,8 +914,13 @@ class Emitter:
     def run(self):
         body = []
         protos = []
+        reach = self.rta()[0]
         for name in sorted(self.mod.funcs):
             f = self.mod.funcs[name]
+            if f.defined and name not in reach:
+                f.defined = False  # unreachable from the harness entry points: not encoded
+                f.blocks = []
+                f.pruned = True
             if f.defined:
                 fe = FuncEmitter(self, f)
                 txt = fe.emit()
@@ -929,8 +937,9 @@ class Emitter:
         hdr += [d for (_, d) in self.aggs.values()]
         hdr += protos
         self.dispatch[('void(uint64_t)', None)] = ('vp_call_void_ptr', VOID, [PTR], None)
-        disp = self.emit_dispatchers()
+        disp = self.emit_dispatchers() + '\n' + self.emit_exc_dtor_dispatcher()
         init = self.emit_init()
+        hdr += ['VP_THREAD_LOCAL uint8_t %s;' % g for g in self.guards]
         return '\n'.join(hdr) + '\n' + '\n'.join(self.dispatch_protos()) + '\n' + '\n'.join(body) + '\n' + disp + '\n' + init
 
     def is_intrinsic(self, name):
@@ -995,9 +1004,167 @@ class Emitter:
                 out.append('%s %s(%s);' % (self.ctype(ret), nm, ps))
         return out
 
+    def emit_exc_dtor_dispatcher(self):
+        """vp_call_exc_dtor: only functions that appear as the destructor argument of a __cxa_throw in this module."""
+        cands = set()
+        rx = re.compile(r'@__cxa_throw\((.*)\)')
+        for f in self.mod.funcs.values():
+            for (_, instrs) in f.blocks:
+                for ins in instrs:
+                    if '@__cxa_throw(' not in ins:
+                        continue
+                    for m in re.finditer(r'@(?:"[^"]*"|[-\w.$]+)', ins.split('@__cxa_throw(', 1)[1]):
+                        if m.group(0) in self.mod.funcs:
+                            cands.add(m.group(0))
+        out = ['void vp_call_exc_dtor(uint64_t fn, uint64_t a0) {']
+        for fn in sorted(cands):
+            f = self.mod.funcs[fn]
+            if len(f.params) == 1 and self.ctype(f.ret) == 'void':
+                self.extern_used.setdefault(fn, True)
+                out.append('  if (fn == %dUL) { %s(a0); return; }' % (self.fn_ids[fn], self.fname(fn)))
+        out.append('  VP_FAIL("exception object destructor is not a function passed to __cxa_throw in this module");')
+        out.append('}')
+        return '\n'.join(out)
+
+    def rta(self):
+        """Rapid type analysis from the harness entry points (defined functions with unmangled names and global ctors):
+        a vtable is live only if some reachable function mentions it (its constructor stores the address point)."""
+        if hasattr(self, '_reach'):
+            return self._reach, self._livevt
+        funcs = self.mod.funcs
+        roots = [n for n, f in funcs.items() if f.defined and not cid(n).startswith('_Z')]
+        ctors = self.mod.globals.get('@llvm.global_ctors')
+        if ctors is not None and ctors.init is not None and ctors.init.k == 'agg':
+            for e in ctors.init.v:
+                fn = self.const_fn_name(e.v[1])
+                if fn:
+                    roots.append(fn)
+        vt_by_name = {}
+        for (ap, fns, gname) in self.vtables:
+            vt_by_name.setdefault(gname, []).extend(f for f in fns if f)
+        rx = re.compile(r'@(?:"[^"]*"|[-\w.$]+)')
+        reach, livevt, work = set(), set(), list(roots)
+        seen_globals = set()
+
+        def visit_global(gn):
+            if gn in seen_globals:
+                return
+            seen_globals.add(gn)
+            if gn in vt_by_name:
+                livevt.add(gn)
+                work.extend(vt_by_name[gn])
+            g = self.mod.globals.get(gn)
+            if g is not None and g.init is not None:
+                self._walk_names(g.init, visit_name)
+
+        def visit_name(n):
+            if n in funcs:
+                work.append(n)
+            elif n in self.mod.aliases:
+                t = self.const_fn_name(self.mod.aliases[n])
+                if t:
+                    work.append(t)
+            elif n in self.mod.globals:
+                visit_global(n)
+        while work:
+            fn = work.pop()
+            if fn in reach or fn not in funcs:
+                continue
+            reach.add(fn)
+            for (_, instrs) in funcs[fn].blocks:
+                for ins in instrs:
+                    if '@' in ins:
+                        for m in rx.finditer(ins):
+                            visit_name(m.group(0))
+        self._reach, self._livevt = reach, livevt
+        return reach, livevt
+
+    def _walk_names(self, c, fn):
+        if c.k == 'global':
+            fn(c.v)
+        elif c.k == 'cast':
+            self._walk_names(c.v[1], fn)
+        elif c.k == 'gep':
+            self._walk_names(c.v[1], fn)
+        elif c.k == 'agg':
+            for e in c.v:
+                self._walk_names(e, fn)
+        elif c.k == 'bin':
+            self._walk_names(c.v[1], fn); self._walk_names(c.v[2], fn)
+
     def ladder_targets(self):
-        """addresses of harness objects registered for pointer concretisation: globals whose name contains 'vp_obj'."""
-        return [g.addr for g in self.mod.order if 'vp_obj' in g.name]
+        """addresses of harness objects registered for pointer concretisation: globals whose name contains 'vp_obj'
+        (plus their secondary-base sub-objects when the dynamic type is known)."""
+        base = [g.addr for g in self.mod.order if 'vp_obj' in g.name]
+        sv = self.static_vptrs()
+        extra = [a for a in sv if a not in base and any(b <= a < b + 4096 for b in base)]
+        return base + sorted(extra)
+
+    def static_vptrs(self):
+        """address -> set of vtable address points known to be stored there, for objects at constant addresses:
+        (1) `store <vtable address point>, <constant address>` in reachable code (inlined constructors);
+        (2) a reachable call of a complete/base constructor _ZN<class>C[12]E... with a constant `this` -> _ZTVN<class>E,
+            every vtable group at this - offset_to_top."""
+        if hasattr(self, '_svp'):
+            return self._svp
+        res = {}
+        reach = self.rta()[0]
+        aps = {ap: (fns, gname) for (ap, fns, gname) in self.vtables}
+        groups = {}
+        for (ap, fns, gname) in self.vtables:
+            groups.setdefault(gname, []).append(ap)
+        for fn in reach:
+            f = self.mod.funcs.get(fn)
+            if f is None:
+                continue
+            last = {}  # within one function a later vptr store to the same address overwrites (base ctor, then derived)
+            for (_, instrs) in f.blocks:
+                for ins in instrs:
+                    if ins.startswith('store ') and '@_ZTV' in ins:
+                        try:
+                            c = Cursor(tokenize(ins), self.mod)
+                            c.next()
+                            vty = parse_type(c)
+                            val = parse_const(c, vty)
+                            c.expect(',')
+                            pty = parse_type(c)
+                            if c.peek()[0] == 'local':
+                                continue
+                            ptr = parse_const(c, pty)
+                            v, a = self.const_int(val), self.const_int(ptr)
+                        except (Unsupported, ValueError, IndexError):
+                            continue
+                        if v in aps:
+                            last[a] = v
+                    elif ('call ' in ins or 'invoke ' in ins) and ('C1E' in ins or 'C2E' in ins):
+                        m = re.search(r'@(_ZN(.+?)C[12]E[\w]*)\(', ins)
+                        if not m:
+                            continue
+                        vt = '@_ZTVN' + m.group(2) + 'E'
+                        if vt not in groups:
+                            continue
+                        try:
+                            c = Cursor(tokenize(ins[m.end():]), self.mod)
+                            aty = parse_type(c)
+                            skip_param_attrs(c)
+                            if c.peek()[0] == 'local':
+                                continue
+                            this = self.const_int(parse_const(c, aty))
+                        except (Unsupported, ValueError, IndexError):
+                            continue
+                        g = self.mod.globals[vt]
+                        if g.init is None or g.init.k != 'agg':
+                            continue
+                        for ap, arr in zip(groups[vt], [a for a in g.init.v if a.k == 'agg']):
+                            try:
+                                ott = self.signed(self.const_int(arr.v[0]), I64)
+                            except Unsupported:
+                                continue
+                            res.setdefault(this - ott, set()).add(ap)
+            for a, v in last.items():
+                res.setdefault(a, set()).add(v)
+        self._svp = res
+        return res
 
     def emit_dispatchers(self):
         out = []
@@ -1027,8 +1194,42 @@ class Emitter:
                 inner = self.dispatcher(ret, argtys, ('v', slot[1]))
                 call = lambda obj: '%s(%s)' % (inner, ', '.join(['vp_ld(%s, 8)' % obj, obj] + ['a%d' % j for j in range(1, len(argtys))]))
                 lad = self.ladder_targets()
+                sv = self.static_vptrs()
+                apmap = {ap: fns for (ap, fns, gname) in self.vtables}
                 for a in lad:
-                    out.append(('  if (a0 == %dUL) { %s; return; }' if rt == 'void' else '  if (a0 == %dUL) { return %s; }') % (a, call('%dUL' % a)))
+                    tgt = None
+                    if a in sv:
+                        tg = set()
+                        for ap in sv[a]:
+                            fns = apmap[ap]
+                            tg.add(fns[slot[1]] if slot[1] < len(fns) else None)
+                        if tg == {None}:
+                            continue  # known dynamic type has no such slot: cannot be the receiver
+                        if len(tg) == 1 and None not in tg:
+                            tgt = tg.pop()
+                            tf = self.mod.funcs[tgt]
+                            try:
+                                if self.sig_key(tf.ret, [p[0] for p in tf.params]) != sig:
+                                    continue  # an object of this dynamic type cannot be the receiver of this call
+                            except Unsupported:
+                                continue
+                    if tgt is not None and cid(tgt) != '__cxa_pure_virtual' and not self.mod.funcs[tgt].vararg:
+                        # dynamic type of this harness object is known statically: direct call, no vptr read at all
+                        self.extern_used.setdefault(tgt, True)
+                        dc = '%s(%s)' % (self.fname(tgt), ', '.join(['%dUL' % a] + ['a%d' % j for j in range(1, len(argtys))]))
+                        # re-entrancy guard (thread-local, so symex folds it): the same virtual function running twice on the same
+                        # harness object at once is reported as a bound, and the infeasible self-recursion is pruned at depth 1
+                        gv = 'vp_in_%s_%d' % (self.fname(tgt), a)
+                        if gv not in self.guards:
+                            self.guards.append(gv)
+                        fail = 'VP_FAIL("VP-BOUND: re-entrant virtual call of the same function on the same vp_obj object");'
+                        if rt == 'void':
+                            out.append('  if (a0 == %dUL) { if (%s) { %s return; } %s = 1; %s; %s = 0; return; }' % (a, gv, fail, gv, dc, gv))
+                        else:
+                            z = ('{ %s z = {0}; return z; }' % rt) if (rt.startswith('struct') or rt == 'vp_u128') else 'return 0;'
+                            out.append('  if (a0 == %dUL) { if (%s) { %s %s } %s = 1; %s vp_r = %s; %s = 0; return vp_r; }' % (a, gv, fail, z, gv, rt, dc, gv))
+                    else:
+                        out.append(('  if (a0 == %dUL) { %s; return; }' if rt == 'void' else '  if (a0 == %dUL) { return %s; }') % (a, call('%dUL' % a)))
                 if lad:
                     out.append('  VP_FAIL("VP-BOUND: virtual call on an object outside the registered vp_obj ladder");')
                     if rt != 'void':
@@ -1043,7 +1244,10 @@ class Emitter:
                 # dispatch on the vtable pointer value: no load from the vtable, candidates = vtables whose slot matches
                 n = 0
                 byfn = {}
+                livevt = self.rta()[1]
                 for (ap, fns, gname) in self.vtables:
+                    if gname not in livevt:
+                        continue  # no reachable code constructs this class: it cannot be the dynamic type
                     k = slot[1]
                     if k >= len(fns) or fns[k] is None:
                         continue
@@ -1074,7 +1278,7 @@ class Emitter:
             pool = taken if slot is None else (self.vtable_slots.get(slot, set()))
             for fn in sorted(pool):
                 f = self.mod.funcs[fn]
-                if f.vararg or self.is_intrinsic(fn):
+                if f.vararg or self.is_intrinsic(fn) or getattr(f, 'pruned', False):
                     continue
                 try:
                     fsig = self.sig_key(f.ret, [p[0] for p in f.params])
@@ -1951,6 +2155,11 @@ class FuncEmitter:
             if fn is None:
                 raise Unsupported('callee constant expression')
             callee = fn
+        if callee is not None and callee in self.mod.aliases:
+            tgt = em.const_fn_name(self.mod.aliases[callee])
+            if tgt is None:
+                raise Unsupported('call through alias to non-function ' + callee)
+            callee = tgt
         c.expect('(')
         args = []
         argtys = []
@@ -2031,7 +2240,7 @@ class FuncEmitter:
         else:
             vs = self.vslot_of(callee_local)
             if vs is not None and self.only_callee_use(callee_local) and self.vobj_of(vs[1]) is not None \
-                    and args and args[0] == self.lname(self.vobj_of(vs[1])):
+                    and args and self.root_of_expr(args[0]) == self.root_local(self.vobj_of(vs[1])):
                 # obj mode: the dispatcher loads the vptr from `this` itself (after concretising `this` on the ladder)
                 dn = em.dispatcher(rty, argtys, ('o', vs[0]))
                 expr = '%s(%s)' % (dn, ', '.join(['0'] + args))
@@ -2108,6 +2317,26 @@ class FuncEmitter:
             return None
         return x
 
+    def root_local(self, local):
+        """follows bitcast definitions back to the underlying SSA value"""
+        seen = 0
+        while seen < 8:
+            d = self.defs.get(local)
+            if not d or not d.startswith('bitcast '):
+                return local
+            mm = re.match(r'bitcast \S.*?(%(?:"[^"]*"|[-\w.$]+)) to ', d)
+            if not mm:
+                return local
+            local = mm.group(1)
+            seen += 1
+        return local
+
+    def root_of_expr(self, cexpr):
+        if not hasattr(self, '_rev'):
+            self._rev = {self.lname(n): n for n in self.types}
+        n = self._rev.get(cexpr)
+        return self.root_local(n) if n else None
+
     def is_suppressed_vptr_load(self, dst):
         """vptr load that only feeds an obj-mode virtual call."""
         if not self.is_vptr_load(self.defs.get(dst, '')) or self.vobj_of(dst) is None:
@@ -2124,7 +2353,7 @@ class FuncEmitter:
                         if m:
                             # first argument must be the object
                             am = re.search(r'(%(?:"[^"]*"|[-\w.$]+))\s*(,|\))', m.group(2))
-                            return bool(am) and am.group(1) == self.vobj_of(dst)
+                            return bool(am) and self.root_local(am.group(1)) == self.root_local(self.vobj_of(dst))
         return False
 
     def only_callee_use(self, local):
@@ -2227,6 +2456,7 @@ def translate(text, opts=None):
     code = em.run()
     info = {
         'functions': sorted(cid(n) for n, f in mod.funcs.items() if f.defined),
+        'functions_pruned_unreachable': sum(1 for f in mod.funcs.values() if getattr(f, 'pruned', False)),
         'externals': sorted(cid(n) for n in em.extern_used if not mod.funcs[n].defined),
         'globals_end': em.globals_end,
     }
